@@ -28,7 +28,11 @@ if prev:
         "when an inner message fails at a particular point and the transaction rolls back (or should); only at an exact boundary value (ratio exactly "
         "equal to a threshold, amount exactly equal to a balance, size exactly zero, limit exactly met); only for short positions, or only when a "
         "position's sign flips; only for bad-debt / insurance-fund-shortfall situations; a value read before instead of after an update (stale read) on a "
-        "rarely taken path; two code sites that must agree (query vs execution, quote vs settle, store vs remove) drifting apart by one unit or one case.\n"
+        "rarely taken path; two code sites that must agree (query vs execution, quote vs settle, store vs remove) drifting apart by one unit or one case; "
+        "state that lives across transactions (a counter, a list that grows, a stamp) and only goes wrong after many operations or after wrapping / pruning; "
+        "an interaction of three features (e.g. funding + partial close + a fluctuation limit, or caps + whitelist + reversal); the repository's own price feed "
+        "(margined_pricefeed) instead of the mock; a deployment with two or three vAMMs where state of one leaks into another; values above 2^64 or tiny "
+        "dust values; an operation repeated twice in the same block; the order of two administrative operations.\n"
     )
 tmpl = open("/verif/tools/PROMPT.tmpl").read()
 out = tmpl.replace("{WT}", wt).replace("{PROP}", text).replace("{ID}", pid)
